@@ -23,6 +23,19 @@ def _asan_pass(v, work, harness, args, nshards, tier, stats, distinct, tag="as")
     distinct |= d
     stats["asan_lsan_pass"] = dict(evaluations=int(c.get("evaluations", 0)), counts=c.get("counts", {}), **st)
 
+def _late_loops_pass(v, work, harness, args, nshards, tier, stats, distinct, tag="ll", delay=40, only_prefix=None):
+    """The same live workload once more with every epoll_wait of the process preceded by a pause of 0..delay ms (interposed, harness/live.h): the
+    loop threads come back to their pollers late, as on a busy machine, and find several readiness changes in one poll result - input together
+    with the housekeeping tick, a connection readable and writable at once, batches of new peers and of queued writes."""
+    pbin = vlib.build_harness(harness, "plain")
+    res = vlib.run_resumable(pbin, list(args) + ["--poll-delay", str(delay)], nshards, timeout=400 if tier == "quick" else 7200, work=work, tag=tag)
+    c, d, s, st = vlib.collect_runs(v, res, only_prefix=only_prefix) if only_prefix else vlib.collect_runs(v, res)
+    distinct |= d
+    cnt = c.get("counts", {})
+    stats["late_loop_threads_pass"] = dict(evaluations=int(c.get("evaluations", 0)), poll_delays_injected=int(cnt.get("poll_delays_injected", 0)), delay_ms_max=delay, **st)
+    if int(c.get("evaluations", 0)) > 0 and "poll_delays_injected" in cnt and int(cnt["poll_delays_injected"]) == 0:
+        v.add_inconclusive("late-loop-threads pass: no epoll_wait was ever delayed")
+
 def run_c06(tier, seed):
     v = vlib.Verdict("C06", tier, seed, level="fault_enumeration")
     work = vlib.scratch_dir("C06")
@@ -38,6 +51,7 @@ def run_c06(tier, seed):
     distinct |= d2
     stats["cross_thread_write_queue"] = dict(scenarios=int(c2.get("evaluations", 0)), counts=c2.get("counts", {}), **st2)
     _asan_pass(v, work, "writes", ["--prop", "c06", "--seed", str(seed + 29), "--cases", str(10 if tier == "quick" else 600), "--depth", "3" if tier == "quick" else "5"], 4, tier, stats, distinct)
+    _late_loops_pass(v, work, "writes", ["--prop", "c06", "--seed", str(seed + 43), "--cases", str(10 if tier == "quick" else 600), "--depth", "3" if tier == "quick" else "5"], 4, tier, stats, distinct)
     v.assumptions += ["socket outcomes are injected by link-time interposition of send/sendfile in the harness binary (no change to the repository)",
                       "the 'always fulfilled' half is judged at a logical point: a marker write queued after everything else has arrived at the peer"]
     return _finish(v, work, counters, distinct, samples, stats,
@@ -51,6 +65,7 @@ def run_c07(tier, seed):
     res = vlib.run_resumable(binary, ["--prop", "c07", "--seed", str(seed), "--cases", str(3 if tier == "quick" else 60)],
                              nsh, timeout=300 if tier == "quick" else 7200, work=work)
     counters, distinct, samples, stats = vlib.collect_runs(v, res)
+    _late_loops_pass(v, work, "writes", ["--prop", "c07", "--seed", str(seed + 47), "--cases", str(2 if tier == "quick" else 30)], 4, tier, stats, distinct, delay=25)
     v.assumptions += ["the blocked state is real kernel back-pressure (2 KiB receive buffer, peer not reading); busy-waiting is decided by COUNTING socket write attempts on the blocked descriptor (interposed send), not by wall-clock",
                       "other connections are given a generous, load-scaled bound (5 s x load factor) to be answered; the blocked peer is released only after they were answered"]
     return _finish(v, work, counters, distinct, samples, stats,
@@ -79,6 +94,7 @@ def run_c08(tier, seed):
     ca, da, sa, sta = vlib.collect_runs(v, resa, judge_report=lambda rep: rep["tool"] != "lsan" or rep.get("in_repo"))
     distinct |= da
     stats["asan_lsan_pass"] = dict(rounds=int(ca.get("evaluations", 0)), connections=int(ca.get("counts", {}).get("connections", 0)), **sta)
+    _late_loops_pass(v, work, "server", ["--prop", "c08", "--seed", str(seed + 53), "--cases", str(3 if tier == "quick" else 60)], 4, tier, stats, distinct)
     v.assumptions += ["'exactly once' is decided at quiescence: all clients gone, accepted descriptors released and /proc/self/fd back at the idle baseline within a bounded, load-scaled wait",
                       "heap census: one-off growth (hash-table buckets, vector capacity, pools) is legitimate and not judged; only growth proportional to the number of connections served, confirmed over a second window, is",
                       "accept4/close are interposed at link time to own the set of accepted descriptors; the HTTP endpoint path observes onRequest/onDisconnection only (Http::Handler::onConnection is private)"]
@@ -97,6 +113,7 @@ def run_c14(tier, seed):
     c2, d2, s2, st2 = vlib.collect_runs(v, res2)
     distinct |= d2
     _asan_pass(v, work, "server", ["--prop", "c14s", "--seed", str(seed + 31), "--cases", str(15 if tier == "quick" else 400)], 4, tier, stats, distinct)
+    _late_loops_pass(v, work, "server", ["--prop", "c14s", "--seed", str(seed + 59), "--cases", str(15 if tier == "quick" else 400)], 4, tier, stats, distinct)
     counters["evaluations"] = counters.get("evaluations", 0) + c2.get("evaluations", 0)
     cc = counters.setdefault("counts", {})
     for k, val in c2.get("counts", {}).items():
@@ -114,6 +131,7 @@ def run_c05(tier, seed):
                              timeout=300 if tier == "quick" else 7200, work=work)
     counters, distinct, samples, stats = vlib.collect_runs(v, res)
     _asan_pass(v, work, "server", ["--prop", "c05", "--seed", str(seed + 37), "--cases", str(25 if tier == "quick" else 1000)], 6, tier, stats, distinct)
+    _late_loops_pass(v, work, "server", ["--prop", "c05", "--seed", str(seed + 61), "--cases", str(25 if tier == "quick" else 1000)], 6, tier, stats, distinct)
     try:
         from checks import client as clientmod
         extra = clientmod.c05_client_requests(v, tier, seed, work)
@@ -152,6 +170,7 @@ def run_c09(tier, seed):
     c2, d2, s2, st2 = vlib.collect_runs(v, res2)
     distinct |= d2
     stats["connection_storm"] = dict(rounds=int(c2.get("evaluations", 0)), counts=c2.get("counts", {}), **st2)
+    _late_loops_pass(v, work, "mt", ["--prop", "storm", "--seed", str(seed + 67), "--cases", str(1 if tier == "quick" else 20)], 4, tier, stats, distinct, delay=30)
     v.assumptions += ["interleavings are whatever the OS scheduler produces under ThreadSanitizer; each configuration is run in several processes (race reports vary from run to run)",
                       "ThreadSanitizer reports without a Pistache frame (harness or libstdc++ internals) are not judged; shutdown()/destruction gets a 30 s x load bound"]
     return _finish(v, work, counters, distinct, samples, stats,
@@ -180,6 +199,7 @@ def run_c02(tier, seed):
     # the same round trips (reads of both ends cut short) under ASan+UBSan+LeakSanitizer: what the client does with its receive buffer, its
     # parser and its connection objects while a response arrives in pieces is invisible to the comparison of the parsed message
     _asan_pass(v, work, "client", ["--prop", "c02", "--seed", str(seed + 41), "--cases", str(40 if tier == "quick" else 1500)], 4, tier, stats, distinct)
+    _late_loops_pass(v, work, "client", ["--prop", "c02", "--seed", str(seed + 71), "--cases", str(40 if tier == "quick" else 1500)], 4, tier, stats, distinct, delay=20)
     v.assumptions += ["components that need no escaping (token characters in names and query, arbitrary octets in bodies); framework additions (Host, User-Agent, Content-Length, Connection, empty Cookie header) are allowed",
                       "request bodies <= 16 KiB (the experimental client cannot resume a partial send)"]
     return _finish(v, work, counters, distinct, samples, stats,
